@@ -30,14 +30,14 @@ def plan (tier, seed):
          + corpus.plan_cases (seed, tier, 1, 4, only = lambda s: all (g ['k'] == 'w' for g in s ['geo']))
 # end def plan
 
-def curve_base (rng):
+def curve_base (rng, short = False):
     f, lam, segl, rad = gen.pick_scale (rng, 1 / 60., 1 / 22.)
-    if rng.random () < 0.5:
+    if rng.random () < 0.5 and not short:
         n   = int (rng.integers (5, 12))
         ang = float (rng.uniform (90, 270))
         c   = dict (k = 'a', n = n, radius = n * segl / np.radians (ang), a1 = 20.0, a2 = 20.0 + ang, r = rad, tag = None)
     else:
-        n    = int (rng.integers (8, 16))
+        n    = int (rng.integers (8, 16)) if rng.random () < 0.7 and not short else int (rng.integers (2, 4))
         c    = dict ( k = 'h', n = n, length = 5 * segl * n / 9.0, turn = 5 * segl * float (rng.choice ([1, -1]))
                     , r = min (rad, segl / 12), rx1 = segl * 9 / (2 * np.pi), ry1 = segl * 9 / (2 * np.pi), tag = None)
     nd  = georef.nodes_of (c)
@@ -86,6 +86,8 @@ def make (c):
     u = rng.random ()
     if c ['i'] % 9 == 4:
         spec = lattice_base (np.random.default_rng ([c ['seed'], 58, c ['i']]))
+    elif c ['i'] % 18 == 6:
+        spec = curve_base (np.random.default_rng ([c ['seed'], 59, c ['i']]), short = True)     # helix of two or three segments
     elif u < 0.12:
         spec = curve_base (rng)
     elif u < 0.6:
